@@ -87,6 +87,20 @@ pub fn check_history<T: Sc>(rng: &mut Rng, spec: &CodedSpec, len: usize) -> (u64
                     return (obs, misuse, Some(format!("step {step}: function {j} returned a vector of length {l}{second} (N={n}) but eval() returned Ok with a {}x{} matrix", mat.nrows(), mat.ncols())));
                 }
             }
+            6 if rng.chance(0.5) => {
+                // every basis function returns the same wrong length (closures written against another grid)
+                let l = wrong_len(rng);
+                if l == n {
+                    continue;
+                }
+                mb.all_values.store(l as i64, SeqCst);
+                let r = model.eval();
+                mb.all_values.store(-1, SeqCst);
+                misuse += 1;
+                if let Ok(mat) = r {
+                    return (obs, misuse, Some(format!("step {step}: every basis function returned a vector of length {l} (N={n}) but eval() returned Ok with a {}x{} matrix", mat.nrows(), mat.ncols())));
+                }
+            }
             3 => {
                 // a derivative closure returns a vector of the wrong length
                 let cands: Vec<usize> = (0..m).filter(|j| !spec.funcs[*j].params.is_empty()).collect();
@@ -250,7 +264,7 @@ pub fn miri_shards(ctx: &Ctx, prop: &str, shards: u64, cases: &str, nmax: &str) 
 }
 
 pub fn run(ctx: &Ctx) {
-    ctx.rule("builder-made models (1..6 parameters, functions of arity 1..6 over ordered subsets, invariant functions, N in 1..9, f32/f64) driven through histories of 12 (quick) / 40 (thorough) operations mixing valid updates with misuse: a function or a derivative closure at a random position returning a vector that is empty / one shorter / one longer / much longer than N (in a third of the function cases a second function misbehaves in the same evaluation with the complementary length 2N-l), derivative indices P, P+1 and far beyond, parameter vectors of length 0, P-1, P+1 and more. Each misuse must return Err (never a panic, never Ok with a mis-shaped matrix); after every operation params(), eval() and every eval_partial_deriv(k) are compared bitwise with the snapshot taken after the last accepted update. non-trivial = history contains at least one misuse operation; distinct = (specification, case)");
+    ctx.rule("builder-made models (1..6 parameters, functions of arity 1..6 over ordered subsets, invariant functions, N in 1..9, f32/f64) driven through histories of 12 (quick) / 40 (thorough) operations mixing valid updates with misuse: a function or a derivative closure at a random position returning a vector that is empty / one shorter / one longer / much longer than N (in a third of the function cases a second function misbehaves in the same evaluation with the complementary length 2N-l; sometimes every basis function returns the same wrong length), derivative indices P, P+1 and far beyond, parameter vectors of length 0, P-1, P+1 and more. Each misuse must return Err (never a panic, never Ok with a mis-shaped matrix); after every operation params(), eval() and every eval_partial_deriv(k) are compared bitwise with the snapshot taken after the last accepted update. non-trivial = history contains at least one misuse operation; distinct = (specification, case)");
     let t = ctx.tier;
     let len = t.pick(12, 40);
     ctx.run_cases("misuse-histories", t.pick(25000, 450000), t.pick(15.0, 900.0), |r, c, o| case(r, c, o, len));
